@@ -427,6 +427,50 @@ def json_streams(run, rng, n):
     return res
 
 
+# every other OUTPUT format: encoder state must not leak from one document / file into the next
+OUT_DOCS = {
+    "map": ["a: 1\nb: x\n", "a: 2\n", "b: y\nc: z\n", "a: 3\nb: w\nc: v\n"],
+    "rows": ["- [1, 2]\n- [3, 4]\n", "- [x, y]\n", "- [5]\n- [6]\n"],
+    "scalar": ["hello\n", "12\n", "true\n"],
+}
+OUT_FORMATS = {"xml": "map", "props": "map", "lua": "map", "shell": "map", "json": "map", "csv": "rows", "tsv": "rows", "toml": "scalar", "uri": "scalar", "base64": "scalar"}
+
+
+def output_sweep(run, rng, n):
+    """(args, texts, ok, got, expected): multi-file run = concatenation of the single-document runs, for every output format"""
+    res = []
+    for fmt, kind in OUT_FORMATS.items():
+        for _ in range(n):
+            files, singles = [], []
+            for _f in range(rng.randrange(1, 4)):
+                docs = []
+                for k in range(rng.randrange(1, 4)):
+                    body = rng.choice(OUT_DOCS[kind])
+                    if k == 0:
+                        lead = rng.choice(["", "", "# lead %d\n" % rng.randrange(9), "# l1\n# l2\n", "---\n"])
+                    else:
+                        lead = rng.choice(["", "", "", "# head %d\n" % rng.randrange(9)]) if kind == "map" else ""
+                    docs.append(lead + body)
+                    singles.append((k, lead + body))
+                files.append("---\n".join(docs))
+            expr = rng.choice([".", ".", ".a"]) if kind == "map" else "."
+            base = ["e", "-o=" + fmt] + (["-I=0"] if fmt == "json" else [])
+            rc, out, _ = run.run_files(files, lambda names: base + [expr] + names)
+            exp, rc_exp = b"", 0
+            for k, text in singles:
+                pp = [] if k == 0 else ["--header-preprocess=false"]
+                key = ("out", fmt, expr, k > 0, text)
+                if key not in run.single:
+                    run.single[key] = run.run_files([text], lambda names: base + pp + [expr] + names)
+                rc1, o1, _ = run.single[key]
+                exp += o1
+                if rc1 != 0:
+                    rc_exp = 1
+                    break
+            res.append((base + [expr], files, out == exp and (rc == 0) == (rc_exp == 0), out, exp))
+    return res
+
+
 def uses_index(c):
     return any(SEL[s][2] != "b" for s in c["sels"])
 
@@ -462,6 +506,9 @@ def replay(rp):
         run = Runner(root)
         if rp.get("kind") == "sweep":
             return all(ok_ for fmt, n, ok_, _, _ in format_sweep(run) if fmt == rp.get("format"))
+        if rp.get("kind") == "outsweep":
+            rc, out, _ = run.run_files(rp["files"], lambda names: rp["args"] + names)
+            return out.decode("utf-8", "replace") == rp["expected_concatenation_of_single_runs"]
         if rp.get("kind") == "jsonstream":
             rc, out, _ = run.run_files(rp["files"], lambda names: rp["args"] + names)
             return rc == 0 and out.decode("utf-8", "replace") == rp["expected"]
@@ -651,6 +698,18 @@ def run(chk):
                 chk.violation({"kind": "sweep", "format": fmt, "files": SWEEP[fmt][:n], "stdout": got.decode("utf-8", "replace"),
                                "expected_join_of_single_runs": exp.decode("utf-8", "replace")}, True,
                               "-p=%s over %d files is not the concatenation of the single-file runs" % (fmt, n))
+        # --- every other output format
+        osw = output_sweep(run_, rng, 25 if thorough else 5)
+        nbad = 0
+        for args, texts, ok_, got, exp in osw:
+            chk.count(("outsweep", tuple(args), tuple(texts)), nontrivial=len(texts) > 1 or "---" in texts[0])
+            if not ok_:
+                nbad += 1
+                if nbad <= 3:
+                    chk.violation({"kind": "outsweep", "args": args, "files": texts, "stdout": got.decode("utf-8", "replace"),
+                                   "expected_concatenation_of_single_runs": exp.decode("utf-8", "replace")}, True,
+                                  "%s output of several documents / files is not the concatenation of the single-document outputs" % args[1])
+        chk.extra["output_format_sweep_runs"] = len(osw)
         # --- JSON streams: several values per file, several files
         js = json_streams(run_, rng, 40 if thorough else 8)
         for args, texts, ok_, got, exp in js:
